@@ -93,6 +93,10 @@ def make_actor(state: ActorState, actor_name: str, *, with_msg_dep=False, deps=N
                 rec.note("eager_call", jid, call=e["call"], attempt=n)
                 await getattr(msg, e["call"])()
                 rec.note("after_eager", jid)  # must be unreachable
+            if do == "bad-return":
+                # the body ends normally but its value cannot be encoded by any converter: an ordinary failure
+                how = "bad-return"
+                return object()
             how = "return"
             return beh.get("value", {"jid": jid, "n": n})
         finally:
